@@ -32,10 +32,10 @@ FILES = {
     "hvsrpy/statistics.py": (["test/test_hvsr_traditional.py", "test/test_hvsr_azimuthal.py"], ["C05", "C11"]),
     "hvsrpy/window_rejection.py": (["test/test_window_rejection.py"], ["C06", "C13", "C05"]),
     "hvsrpy/smoothing.py": (["test/test_smoothing.py"], ["C02"]),
-    "hvsrpy/processing.py": (["test/test_processing.py"], ["C01", "C03", "C04", "C17", "C09"]),
-    "hvsrpy/preprocessing.py": (["test/test_processing.py"], ["C10", "C17", "C04"]),
-    "hvsrpy/timeseries.py": (["test/test_timeseries.py"], ["C18", "C10", "C01"]),
-    "hvsrpy/seismic_recording_3c.py": (["test/test_seismic_recording_3c.py"], ["C04", "C18", "C10"]),
+    "hvsrpy/processing.py": (["test/test_processing.py"], ["C03", "C17", "C09", "C01", "C04"]),
+    "hvsrpy/preprocessing.py": (["test/test_processing.py"], ["C17", "C10", "C04"]),
+    "hvsrpy/timeseries.py": (["test/test_timeseries.py"], ["C18", "C10", "C01", "C07"]),
+    "hvsrpy/seismic_recording_3c.py": (["test/test_seismic_recording_3c.py"], ["C18", "C10", "C04", "C07"]),
     "hvsrpy/data_wrangler.py": (["test/test_datawrangler.py"], ["C07"]),
     "hvsrpy/regex.py": (["test/test_datawrangler.py"], ["C07"]),
     "hvsrpy/object_io.py": (["test/test_object_io.py"], ["C12", "C15"]),
@@ -45,6 +45,7 @@ FILES = {
     "hvsrpy/postprocessing.py": (["test/test_hvsr_traditional.py"], ["C20"]),
     "hvsrpy/hvsr_diffuse_field.py": (["test/test_processing.py"], ["C17"]),
     "hvsrpy/psd.py": (["test/test_processing.py"], ["C17"]),
+    "hvsrpy/instrument_response.py": (["test/test_processing.py"], ["C17"]),
     "hvsrpy/cli.py": ([], ["C19"]),
 }
 DESELECT = ["--deselect", "test/test_datawrangler.py::TestDataWrangler::test_read_single_on_minishark"]
@@ -72,6 +73,8 @@ def enumerate_mutants(path):
             f = ast.unparse(n.value.func)
             if f.startswith(("logger.", "print", "warnings.")):
                 skip.update(range(n.lineno, n.end_lineno + 1))
+        if isinstance(n, ast.If) and "verbose" in ast.unparse(n.test):
+            skip.update(range(n.lineno, n.end_lineno + 1))
         if isinstance(n, (ast.Assign, ast.AugAssign)) and ast.unparse(n.targets[0] if isinstance(n, ast.Assign) else n.target) in ("msg", "logger"):
             skip.update(range(n.lineno, n.end_lineno + 1))
     out = []
